@@ -5,11 +5,12 @@ from .common import Run, parse_list
 from .c09 import NAMES, FIX
 
 PROP = "C10"
-MODULE = "PLS.Props.C10B"     # imports PLS.Props.C10 and C06
+MODULE = "PLS.Props.C10R"     # imports PLS.Props.C10B (C10 and C06)
 THEOREMS = ["PLS.Conc10.C10_tracked_step", "PLS.Conc10.C10_tracked_run", "PLS.Conc10.C10_tracked_quiescent",
             "PLS.Conc10.C10_one_more_change_restores", "PLS.Conc10.C10_edit_after_scan_exact",
             "PLS.Conc10.C10_scan_after_edit_duplicates", "PLS.Conc10.solo_retain", "PLS.Conc10.solo_push",
-            "PLS.Bridge10.tracked_of_Tr", "PLS.Bridge10.C10_one_more_change_on_index"]
+            "PLS.Bridge10.tracked_of_Tr", "PLS.Bridge10.C10_one_more_change_on_index",
+            "PLS.Bridge10.Tr_of_tracked", "PLS.Bridge10.C10_solo_run_is_analyze"]
 RULE = ("the real FixtureDatabase under the cooperative scheduler of the instrumented dashmap (PLSV_SHARDS=2): worker 1 is "
         "the scan's visit of F (analyze_file_fresh with the disk text), worker 2 the editor (analyze_file with the buffer: "
         "didOpen, optionally a didChange), F a test module or a conftest.py next to an already indexed context file sharing "
